@@ -132,10 +132,28 @@ def run(ctx):
             judge_pair(ctx, case, a, b)
             ctx.count("ordered_pairs")
     ctx.exhaustive = True
+    # values one of whose runs holds an already rendered string (f + str(g)): they display
+    # like the properly built value and must compare and hash accordingly
+    from curtsies.formatstring import fmtstr as _fmtstr
+    raw = []
+    for i in range(0, min(len(values), 120), 3):
+        if specs[i] and specs[(i + 1) % len(specs)]:
+            head, tail = values[i], values[(i + 1) % len(values)]
+            raw.append((head + tail, obs.touch(head + str(tail)) if i % 2 else head + str(tail)))
+    for k, (proper, pre) in enumerate(raw):
+        if ctx.mine(k):
+            judge_pair(ctx, {"kind": "prerendered", "i": k}, proper, pre)
+            judge_pair(ctx, {"kind": "prerendered", "i": k}, pre, proper)
+            obs.touch(proper)
+            obs.touch(pre)
+            judge_pair(ctx, {"kind": "prerendered-after-use", "i": k}, proper, pre)
+            ctx.count("prerendered_pairs")
     for i, a in enumerate(values):
         if not ctx.mine(i):
             continue
-        for s in (str(a), a.s, "unrelated", ""):
+        canon = str(a.copy())
+        for s in (str(a), a.s, "unrelated", "", canon.replace("\x1b[39m", "\x1b[0m"),
+                  canon.replace("\x1b[0m", "\x1b[m"), canon + "\x1b[0m"):
             judge_str(ctx, {"kind": "str", "a": specs[i], "s": s}, a, s)
             ctx.count("str_comparisons")
         if specs[i]:
